@@ -108,6 +108,13 @@ def gen_harness(job, fi, contract):
             L.append('  vstr %s; %s.p = %s_buf; %s.len = nondet_int();' % (n, n, n, n))
             L.append('  __CPROVER_assume(0 <= %s.len && %s.len < VERIF_STRCAP); %s_buf[%s.len] = 0;' % (n, n, n, n))
             args.append('&' + n)
+        elif p.kind == 'array' and not p.ctype.startswith('const'):
+            # an output array that C++ callers may omit (NULL): both cases are explored
+            dim = p.array.strip('[]').strip() or '16'
+            bt = p.ctype.strip()
+            L.append('  %s %s[%s]; for (int i_ = 0; i_ < (int)(%s); ++i_) %s[i_] = %s;' % (bt, n, dim, dim, n, nondet_for(bt)))
+            L.append('  %s *%s_ptr = nondet_bool() ? %s : (%s *)0;' % (bt, n, n, bt))
+            args.append(n + '_ptr')
         else:
             raise ExtractError('%s: parameter %s of kind %s needs a hand-written /*@ harness */' % (fi.cname, p.name, p.kind))
     if contract.harness_pre is not None:
